@@ -85,14 +85,23 @@ const c17Rule = "case = shared reified node (sharded directory with cold cache /
 func TestC17_P_ConcurrentReads(t *testing.T) {
 	ev := newEvid(t, c17Rule)
 	rapid.Check(t, func(t *rapid.T) {
-		kind := rapid.SampledFrom([]string{"hamt-cold", "hamt-cold", "hamt-warm", "file"}).Draw(t, "kind")
+		kind := rapid.SampledFrom([]string{"hamt-cold", "hamt-cold", "hamt-warm", "file", "file-oldstyle", "hamt-cold-faulty"}).Draw(t, "kind")
 		st := NewStore()
 		var root cid.Cid
 		var names []string
 		var tree *ShardNode
 		var content []byte
-		if kind == "file" {
-			fc := genFileDAG(t, 20, 300)
+		if kind == "file" || kind == "file-oldstyle" {
+			var fc *fileCase
+			if kind == "file" {
+				fc = genFileDAG(t, 20, 300)
+			} else {
+				// hand-assembled: may lack BlockSizes / FileSize, so readers have to measure children by opening them
+				fc = genHandFileDAG(t, true)
+				if len(fc.Data) == 0 {
+					fc = genFileDAG(t, 20, 100)
+				}
+			}
 			st, root, content = fc.St, fc.Root, fc.Data
 		} else {
 			names, _ = genNames(t, nameOpts{Max: 120})
@@ -109,6 +118,13 @@ func TestC17_P_ConcurrentReads(t *testing.T) {
 				t.Fatalf("harness: %v", err)
 			}
 			tree, _ = st.ShardTree(root)
+			if kind == "hamt-cold-faulty" {
+				// one child shard cannot be loaded: concurrent operations must fail (or not) exactly as they do alone, and return
+				if shards := tree.ShardsPreOrder(); len(shards) > 0 {
+					st.Missing = map[cid.Cid]bool{shards[rapid.IntRange(0, len(shards)-1).Draw(t, "missingShard")]: true}
+					st.MissingIO = rapid.Bool().Draw(t, "ioErr")
+				}
+			}
 		}
 		g := rapid.IntRange(2, 8).Draw(t, "goroutines")
 		scripts := make([][]c17Op, g)
@@ -117,7 +133,7 @@ func TestC17_P_ConcurrentReads(t *testing.T) {
 			touched[i] = map[cid.Cid]bool{}
 			for j := rapid.IntRange(1, 12).Draw(t, "ops"); j > 0; j-- {
 				var op c17Op
-				if kind == "file" {
+				if kind == "file" || kind == "file-oldstyle" {
 					switch rapid.IntRange(0, 2).Draw(t, "fop") {
 					case 0:
 						op = c17Op{Kind: "bytes"}
@@ -204,7 +220,7 @@ func TestC17_P_ConcurrentReads(t *testing.T) {
 				mix[op.Kind] = true
 			}
 		}
-		nt := (kind == "hamt-cold" && sharedShard) || kind == "file"
+		nt := (strings.HasPrefix(kind, "hamt-cold") && sharedShard) || strings.HasPrefix(kind, "file")
 		var mk []string
 		for k := range mix {
 			mk = append(mk, k)
